@@ -392,7 +392,7 @@ theorem np_renderNode (c : RCtx) (h : PrimsNoPanic c.P c.O) (hc : IncNoPanic c) 
     refine npm_wrapFailAt _ _ (npm_bind (npm_getVar _) (fun lv => ?_))
     split
     · exact npm_fail _
-    · exact npm_bind (npm_setVar _ _) (fun _ => npm_bind (npm_write _) (fun _ => npm_pure _))
+    · exact npm_bind (npm_setVar _ _) (fun _ => npm_bind (npm_writeVerbatim _) (fun _ => npm_pure _))
   | .brk line => by unfold renderNode; exact npm_pure _
   | .cont line => by unfold renderNode; exact npm_pure _
   | .incl line args => by
@@ -408,7 +408,7 @@ theorem np_renderNode (c : RCtx) (h : PrimsNoPanic c.P c.O) (hc : IncNoPanic c) 
           exact NoPanicProg.bind (hc _ _ _) (fun _ => .ret _)
         · obtain ⟨st, out⟩ := r
           cases st with
-          | done => exact npm_bind (npm_write _) (fun _ => npm_pure _)
+          | done => exact npm_bind (npm_writeVerbatim _) (fun _ => npm_pure _)
           | brk e => exact npm_pure _
           | cont e => exact npm_pure _
       · exact npm_fail _
